@@ -132,6 +132,35 @@ def _check_tree(ctx, kind, tree, n, adj, root, bfs=True):
         if not good or seen != reached:
             ctx.violation("traverse", order, "bad_traversal", "traversal does not visit every reached element exactly once, parents before children",
                           visited=len(seen), reached=len(reached))
+    # two traversals of the same tree alive at the same time (nested loops over its nodes, zip of a BFS and a DFS walk): each one is complete
+    def interleaved():
+        ita, itb = tree.traverse("BFS"), tree.traverse("DFS")
+        out_a, out_b = [], []
+        for a in ita:
+            out_a.append(a)
+            b = next(itb, None)
+            if b is not None:
+                out_b.append(b)
+        out_b.extend(itb)
+        return out_a, out_b
+    ok, both = ctx.call("traverse_interleaved", interleaved, monitor="traverse", abort=False)
+    if ok:
+        ctx.obs("traverse", "interleaved")
+        for order, seq in zip(("BFS", "DFS"), both):
+            seen, good = set(), True
+            for item in seq:
+                try:
+                    node, par = item
+                except Exception:
+                    good = False
+                    break
+                if node in seen or (par is not None and par not in seen):
+                    good = False
+                    break
+                seen.add(node)
+            if not good or seen != reached:
+                ctx.violation("traverse", "interleaved", "bad_traversal_when_two_are_alive", "with two traversals of one tree alive at once, a traversal does not visit "
+                              "every reached element exactly once", order=order, visited=len(seen), reached=len(reached))
     return reached
 
 
@@ -305,6 +334,11 @@ def run_case(desc, ctx):
             avoid = set(rng.sample(range(len(edges)), k))
             if rng.random() < 0.35:
                 avoid.add(0)  # id 0 is a legitimate element of an exclusion set
+        r_both = random.Random(desc["seed"] * 3 + rep).random()
+        if rep == 1 and r_both < 0.5:
+            # both options together (independent of each other): an exclusion set - possibly empty - next to avoid_boundary
+            avoid = set() if r_both < 0.15 else set(random.Random(desc["seed"] + 17).sample(range(len(edges)), min(len(edges), 1 + len(edges) // 6)))
+            ctx.cls("vertex_tree:both_options:%s" % ("empty_exclusion_set" if not avoid else "exclusion_set"))
         adj = {v: set() for v in range(n)}
         for e in E:
             if avoid is not None and eid[e] in avoid:
